@@ -592,7 +592,8 @@ pub fn history_version_decl(h: &History, k: usize, name: &str) -> RecordDecl {
     let schema = h.version(k);
     // type of each field at the time of its addition (for the default expressions)
     let mut ty_at_addition = std::collections::HashMap::new();
-    for s in &h.steps {
+    for s in &h.steps[..k] {
+        // (a name that comes back: the latest addition up to this version is the declared field)
         if let HStep::Added { field, .. } = s {
             let base = placeholder_src(&field.base);
             let t = if field.optional { format!("Option<{base}>") } else { base };
@@ -607,7 +608,7 @@ pub fn history_version_decl(h: &History, k: usize, name: &str) -> RecordDecl {
             let (transient_expr, added_default_expr) = if f.transient {
                 // the transient default was drawn for the field's type at that time = its current type;
                 // a field that was added by FieldAdded keeps a well-typed FieldAdded default as well (a real declaration would)
-                let added = h.steps[..k].iter().find_map(|s| match s {
+                let added = h.steps[..k].iter().rev().find_map(|s| match s {
                     HStep::Added { field, default, .. } if field.name == f.name => {
                         let e = placeholder_default_expr(&ty_at_addition[&f.name], default);
                         Some(if f.opt_by_name && !field.optional { format!("Some({e})") } else { e })
